@@ -106,7 +106,7 @@ PropsOf(e, pre, post) ==
 
 ---------------------------------------------------------------------------
 (* SQL queries over $_keyspace (C19) and view queries (C12) of one collection *)
-AuxKinds == {"q-all", "q-inter", "q-v", "q-s", "q-null", "q-noxa", "view", "viewdesc", "viewlimit", "viewkey", "viewcount", "ddoc",
+AuxKinds == {"q-all", "q-inter", "q-v", "q-vraw", "q-s", "q-null", "q-noxa", "view", "viewdesc", "viewlimit", "viewkey", "viewcount", "ddoc",
              "viewxend", "viewiend", "viewfrom", "viewxenddesc", "viewfromdesc"}
 RowOf(r) == [id |-> r.id, body |-> B(r.body), xa |-> XaOf(r.xa), vals |-> r.vals]
 RowsOf(s) == IF Len(s) = 0 THEN <<>> ELSE [i \in 1..Len(s) |-> RowOf(s[i])]
@@ -141,7 +141,7 @@ ExpectedAuxV(kind, ds, variant) ==
     LET ViewSeq(x) == ViewSeqV(x, variant) IN
     CASE kind \in {"q-all", "q-inter"} -> LET ks == KeySeq({k \in Keys : HasBody(ds[k])}) IN
                            IF ks = <<>> THEN <<>> ELSE [i \in 1..Len(ks) |-> QRow(ks[i], ds[ks[i]])]
-      [] kind = "q-v" -> LET ks == KeySeq({k \in Keys : HasBody(ds[k]) /\ ds[k].body.k = "obj" /\ ds[k].body.o["v"] = "J1"}) IN
+      [] kind \in {"q-v", "q-vraw"} -> LET ks == KeySeq({k \in Keys : HasBody(ds[k]) /\ ds[k].body.k = "obj" /\ ds[k].body.o["v"] = "J1"}) IN
                          IF ks = <<>> THEN <<>> ELSE [i \in 1..Len(ks) |-> IdRow(ks[i])]
       [] kind = "q-s" -> LET ks == KeySeq({k \in Keys : HasBody(ds[k]) /\ ds[k].xa["_s"].t = "x1"}) IN
                          IF ks = <<>> THEN <<>> ELSE [i \in 1..Len(ks) |-> IdRow(ks[i])]
@@ -399,7 +399,7 @@ Call(e) ==
             IF ~auxOn /\ \A kd \in AuxKinds : auxs[c][kd] = <<>> THEN 0
             ELSE IF \E k2 \in Keys : BadJson(newDocs[c][k2]) THEN 0
             ELSE Cardinality({kd \in AuxKinds \ {"viewcount"} : na[c][kd] # ExpectedAux(kd, newDocs[c])
-                    /\ Fail(IF kd \in {"q-all", "q-inter", "q-v", "q-s", "q-null", "q-noxa"} THEN {"C19"} ELSE {"C12"}, e, <<"aux", kd, c>>,
+                    /\ Fail(IF kd \in {"q-all", "q-inter", "q-v", "q-vraw", "q-s", "q-null", "q-noxa"} THEN {"C19"} ELSE {"C12"}, e, <<"aux", kd, c>>,
                             BriefRows(ExpectedAux(kd, newDocs[c])), BriefRows(na[c][kd]))})
                  + F(CountOK(na[c]["viewcount"], newDocs[c]), {"C12"}, <<"aux", "viewcount", c>>, Len(ViewSeq(newDocs[c])), BriefRows(na[c]["viewcount"]))
         \* the views queried after the feed flush (whose markers are writes to every collection): one queried after every
